@@ -589,6 +589,32 @@ def signal_names():
     return rows
 
 
+def status_words():
+    """displayer/imp.rs `status_str` (unix arms): the word each kind of result is reported with on a status line."""
+    src = strip_comments(read("nextest-runner/src/reporter/displayer/imp.rs"))
+    m = re.search(r"fn status_str\(result: ExecutionResult\) -> Cow<'static, str> \{\s*match result \{(.*?)\n    \}\n\}", src, re.S)
+    if not m: raise RuntimeError("displayer/imp.rs: status_str not found")
+    body = re.sub(r"\s+", " ", m.group(1)).strip()
+    # drop the windows arm
+    body = re.sub(r"#\[cfg\(windows\)\] ExecutionResult::Fail \{ abort_status: Some\(AbortStatus::WindowsNtStatus\(_\)\) \| Some\(AbortStatus::JobObject\), leaked: _, \} => \{ \"ABORT\"\.into\(\) \} ", "", body)
+    pats = [
+        ("Fail/signal", r"#\[cfg\(unix\)\] ExecutionResult::Fail \{ abort_status: Some\(AbortStatus::UnixSignal\(sig\)\), leaked: _, \} => match crate::helpers::signal_str\(sig\) \{ Some\(s\) => format!\(\"(SIG)\{s\}\"\)\.into\(\), None => format!\(\"(ABORT SIG) \{sig\}\"\)\.into\(\), \}, "),
+        ("Fail/leaked", r"ExecutionResult::Fail \{ abort_status: None, leaked: true, \} => \"([^\"]*)\"\.into\(\), "),
+        ("Fail", r"ExecutionResult::Fail \{ abort_status: None, leaked: false, \} => \"([^\"]*)\"\.into\(\), "),
+        ("ExecFail", r"ExecutionResult::ExecFail => \"([^\"]*)\"\.into\(\), "),
+        ("Pass", r"ExecutionResult::Pass => \"([^\"]*)\"\.into\(\), "),
+        ("Leak", r"ExecutionResult::Leak => \"([^\"]*)\"\.into\(\), "),
+        ("Timeout", r"ExecutionResult::Timeout => \"([^\"]*)\"\.into\(\),"),
+    ]
+    rows = []; pos = 0
+    for key, rx in pats:
+        r = re.compile(rx).match(body, pos)
+        if not r: raise RuntimeError(f"displayer/imp.rs status_str: arm for {key} not recognised at `{body[pos:pos + 70]}`")
+        rows.append((key, "|".join(r.groups()))); pos = r.end()
+    if body[pos:].strip(): raise RuntimeError(f"displayer/imp.rs status_str: unrecognised arm `{body[pos:pos + 70]}`")
+    return rows
+
+
 def script_sequencing():
     """executor.rs / imp.rs: setup scripts run one at a time, in order, and before any test is queued."""
     ex = re.sub(r"\s+", " ", strip_comments(read("nextest-runner/src/runner/executor.rs")))
@@ -637,7 +663,7 @@ def spawn_setup():
     return rows
 
 
-GROUPS = ["cancel", "mismatch", "exit", "setdef", "escape", "signals", "sighandler", "termchild", "termexit", "delayloop", "drainloop", "drainexit", "drainalways", "verdict", "weights", "retries", "scripts", "spawn", "mainloop", "interval", "placeholders", "xml", "respond", "attemptloop", "snapshot", "signames"]
+GROUPS = ["cancel", "mismatch", "exit", "setdef", "escape", "signals", "sighandler", "termchild", "termexit", "delayloop", "drainloop", "drainexit", "drainalways", "verdict", "weights", "retries", "scripts", "spawn", "mainloop", "interval", "placeholders", "xml", "respond", "attemptloop", "snapshot", "signames", "statuswords"]
 
 
 def group_lines(g):
@@ -738,6 +764,10 @@ def group_lines(g):
         rows = signal_names()
         return ["/-- helpers.rs `signal_str`: the name shown for a signal number -/",
                 "def signalNames : List (Nat × String) := [" + ", ".join(f'({a}, "{b}")' for a, b in rows) + "]"]
+    if g == "statuswords":
+        rows = status_words()
+        return ["/-- displayer/imp.rs `status_str`: the word a status line reports each kind of result with (a signal: `SIG<name>` or `ABORT SIG <n>`) -/",
+                "def statusWords : List (String × String) := [" + ", ".join(f'("{a}", "{b}")' for a, b in rows) + "]"]
     if g == "scripts":
         rows = script_sequencing()
         return ["/-- executor.rs / imp.rs: the sequencing of setup scripts, as written -/",
